@@ -11,9 +11,9 @@ CORR_MODULES = ["Qos.MatchCorr"]
 PREFIX = "C15"
 CASE_TYPE = "C15_case"
 HARNESS = "c15"
+# classes 1 (C15-liveliness-lexicographic) and 2 (C15-presentation-neq) were fixed in /repo by
+# f03d4da / 908a0e8; their numbers are not reused
 KNOWN = {
-    1: "C15-liveliness-lexicographic",
-    2: "C15-presentation-neq",
     3: "C15-partition-plus",
     4: "C15-partition-default",
     5: "C15-partition-two-wildcards",
@@ -338,12 +338,13 @@ def corpus():
     lr = lambda k, s: setq(DEF_R, lkind=k, lease=(s, 0))
     return [
         mk(tag="corpus"),
-        mk(lw(0, 10), lr(0, 20), tag="corpus"),      # class 1: false incompatibility
-        mk(lw(0, 20), lr(0, 10), tag="corpus"),      # class 1: false match
-        mk(lw(2, 20), lr(0, 10), tag="corpus"),      # class 1: stronger kind, longer lease
+        # regression cases of the two fixed defects (f03d4da liveliness, 908a0e8 presentation)
+        mk(lw(0, 10), lr(0, 20), tag="corpus"),      # was reported incompatible LIVELINESS; compatible
+        mk(lw(0, 20), lr(0, 10), tag="corpus"),      # was matched; incompatible (offered lease longer)
+        mk(lw(2, 20), lr(0, 10), tag="corpus"),      # was matched; stronger kind but longer lease
         mk(lw(2, 5), lr(0, 10), tag="corpus"),       # compatible
-        mk(setq(DEF_W, coh=1), DEF_R, tag="corpus"),  # class 2
-        mk(setq(DEF_W, ord=1), DEF_R, tag="corpus"),  # class 2
+        mk(setq(DEF_W, coh=1), DEF_R, tag="corpus"),  # was reported incompatible PRESENTATION; compatible
+        mk(setq(DEF_W, ord=1), DEF_R, tag="corpus"),  # idem, ordered_access
         mk(DEF_W, setq(DEF_R, coh=1), tag="corpus"),  # genuinely incompatible
         mk(pp=["a+"], sp=["aa"], tag="corpus"),      # class 3
         mk(pp=[], sp=[""], tag="corpus"),            # class 4
@@ -482,20 +483,20 @@ def distribution(cases, outs):
 
 
 MANIFEST = {
-    "text": ("Machine-checked proof (Coq) over a hand model of the two QoS-incompatibility functions (with the derived "
-             "lexicographic orders exactly as rustc derives them), of fnmatch_to_regex and of the matched/incompatible "
-             "decision of process_discovered_readers/writers. Proved for ALL QoS values with normalized durations: "
-             "outside two recorded defect classes each function returns the empty list exactly when the DDS 1.4 "
-             "request/offered table (transcribed independently, liveliness kind and lease separately) says compatible, "
-             "the reported policy ids are exactly the failing policies, and the writer-side and reader-side functions "
-             "always agree (unconditionally, as a permutation of the same ids). Inside the classes the code is proved to "
-             "give the opposite verdict (liveliness with different lease durations; presentation coherent/ordered "
-             "offered-but-not-requested) and this is reproduced on the real code. Partition: the translator plus a "
-             "description of the regex crate is proved equal to POSIX fnmatch / the DDS partition rule on the supported "
-             "pattern fragment outside four recorded deviation classes (`+`, empty list vs \"\", two wildcard names, "
-             "line feed). The model is tied to /repo by running the real call sites on every kind combination per "
-             "policy, boundary durations, random whole configurations and thousands of partition patterns, and comparing "
-             "inside Coq; the oracle judges the implementation's own observations."),
+    "text": ("Machine-checked proof (Coq) over a hand model of the two QoS-incompatibility functions (after the fixes "
+             "f03d4da / 908a0e8: liveliness kind and lease compared separately, presentation flags as implications), of "
+             "fnmatch_to_regex and of the matched/incompatible decision of process_discovered_readers/writers. Proved for "
+             "ALL QoS values with normalized durations, without exception: each function returns the empty list exactly "
+             "when the DDS 1.4 request/offered table (transcribed independently) says compatible, the reported policy ids "
+             "are exactly the failing policies, each once, and the writer-side and reader-side functions always agree "
+             "(unconditionally, as a permutation of the same ids). Partition: the translator plus a description of the "
+             "regex crate is proved equal to POSIX fnmatch / the DDS partition rule on the supported pattern fragment "
+             "outside four recorded deviation classes (`+`, empty list vs \"\", two wildcard names, line feed), each with "
+             "a proved witness. End to end: matched iff topic, type, partition and RxO fit; an incompatible pair is "
+             "reported on both sides with exactly the offending policies. The model is tied to /repo by running the real "
+             "call sites on every kind combination per policy (thorough: all 589 824 combinations of all kinds), boundary "
+             "durations, random whole configurations and thousands of partition patterns, and comparing inside Coq; the "
+             "oracle judges the implementation's own observations."),
     "note": ("Trusted: Coq kernel + vm_compute; the hand models (checked against the code on every run); the reading of "
              "the standards in dds_rxo / dds_partition_match / fnmatch; the regex crate (described, compared "
              "differentially, not verified); harness and comparator. Not covered: TypeObject assignability branch of "
